@@ -42,10 +42,13 @@ RULE = (
     "the trampolines. For about a quarter of the shapes the SAME pipeline object is subscribed a second and third "
     "time after the previous subscription returned (fresh counter/budget and fresh harness predicates per subscription; "
     "from_iterable gets a re-iterable counting iterable) and each subscription must satisfy the same oracle; a failure "
-    "of a later subscription carries the suffix ':2nd-subscription' / ':3rd-subscription'. Non-trivial: the terminator needs >= 1 source element. Distinct = distinct case JSON."
+    "of a later subscription carries the suffix ':2nd-subscription' / ':3rd-subscription'. About a quarter of the shapes "
+    "(a third in 'deep') are subscribed on a real worker threading.Thread (fresh thread per subscription, joined; budget "
+    "and oracle unchanged, the second look runs on that thread); a failure that does not occur when the same shape is "
+    "subscribed on the main thread carries the suffix ':worker-thread-only'. Non-trivial: the terminator needs >= 1 source element. Distinct = distinct case JSON."
 )
 ASSUMPTIONS = [
-    "single thread, real CurrentThread/Immediate schedulers (no virtual time); partner sources (of, never) are finite or silent",
+    "one thread at a time (main thread or a joined worker thread; no concurrency), real CurrentThread/Immediate schedulers (no virtual time); partner sources (of, never) are finite or silent",
     "scheduler configurations listed as open findings in known_findings.json are excluded by construction except for a thin sample (simple shapes + 1/48) and counted; likewise listed starvation call sites (source|wrapper), sample 1/8",
     "stacks of two wrappers exclude switch_map behind a wrapper that interleaves several never-ending producers (every trampolined inner is legitimately pre-empted, termination is not determined)",
     "a per-case process watchdog (240 one-second wake-ups without progress, then stack dump and os._exit) exists only as a backstop; its trip is a harness error, never a verdict",
@@ -637,6 +640,7 @@ def _run_inner(case, force=False):
     resets = list(_RESETS)
     resub = int(case.get("resub") or 0)
     cls = [f"src={src}", f"cfg={cfg}", f"wrap={case['wrap']}", f"term={term[0]}", f"ew={len(case['ew'])}", f"resub={resub}"]
+    cls.append("thread=" + (case.get("thread") or "main"))
     if case.get("wrap2"):
         cls.append(f"wrap2={case['wrap2']}")
         cls.append("stacked-wrappers")
@@ -678,15 +682,47 @@ def _starving_wrapper(case):
 def _one_subscription(case, o, sub_s, explicit, emits, bud, need, n, cls, k):
     src, cfg, term = case["src"], case["cfg"], case["term"]
     rec = Rec(bud)
-    status = "returned"
-    d = None
-    try:
-        d = o.subscribe(rec.on_next, rec.on_error, rec.on_completed, scheduler=sub_s)
-    except BudgetExceeded:
-        status = "budget"
-    except RecursionError:
-        status = "recursion"
-    pulls_ret = bud.n
+    st = {"status": "returned", "frozen": True, "pulls_ret": None, "exc": None}
+
+    def body():
+        d = None
+        try:
+            d = o.subscribe(rec.on_next, rec.on_error, rec.on_completed, scheduler=sub_s)
+        except BudgetExceeded:
+            st["status"] = "budget"
+        except RecursionError:
+            st["status"] = "recursion"
+        except Exception as e:  # noqa  (re-raised on the calling thread so the runner can classify it)
+            st["exc"] = e
+            return
+        st["pulls_ret"] = bud.n
+        if st["status"] != "returned":
+            return
+        # second look (on the subscribing thread): dispose, flush the trampolines, the counter must not move
+        try:
+            if d is not None:
+                d.dispose()
+            CurrentThreadScheduler.singleton().schedule(_noop)
+            if explicit is not None:
+                explicit.schedule(_noop)
+        except BudgetExceeded:
+            st["frozen"] = False
+        except Exception as e:  # noqa
+            st["exc"] = e
+
+    if case.get("thread") == "worker":
+        # a real worker thread: the current-thread scheduler is per thread, so the trampoline that subscribe() sets up
+        # must be the worker's own.  The budget (raised inside the worker) bounds the thread, the process watchdog
+        # backs the join.
+        t = threading.Thread(target=body, daemon=True, name="c14-worker")
+        t.start()
+        t.join()
+    else:
+        body()
+    if st["exc"] is not None:
+        raise st["exc"]
+    status = st["status"]
+    pulls_ret = st["pulls_ret"] if st["pulls_ret"] is not None else bud.n
     termev = rec.terminal()
     n_out = sum(1 for e in rec.ev if e[0] == "N")
     symptom = None
@@ -698,16 +734,7 @@ def _one_subscription(case, o, sub_s, explicit, emits, bud, need, n, cls, k):
         runaway = True
         symptom = "recursion-escaped"
     else:
-        # second look: dispose, flush the trampolines, the counter must not move
-        frozen = True
-        try:
-            if d is not None:
-                d.dispose()
-            CurrentThreadScheduler.singleton().schedule(_noop)
-            if explicit is not None:
-                explicit.schedule(_noop)
-        except BudgetExceeded:
-            frozen = False
+        frozen = st["frozen"]
         if bud.n != pulls_ret:
             frozen = False
         if termev is None:
@@ -762,6 +789,13 @@ def _one_subscription(case, o, sub_s, explicit, emits, bud, need, n, cls, k):
     if k and not (runaway and (cfg.startswith("immediate") or cfg.startswith("ct_fresh"))):
         # a later subscription of the same object fails although the first one held: state shared between subscriptions
         sig = f"{sig.split('|')[0]}|{term[0]}:{_ORD.get(k, str(k + 1) + 'th')}-subscription"
+    if case.get("thread") == "worker" and not (cfg.startswith("immediate") or cfg.startswith("ct_fresh")):
+        # does the same shape hold when subscribed on the main thread?  then the thread is the root cause
+        saved = list(_ARRIVED)
+        r = _run_inner(dict(case, thread="main"), force=True)
+        _ARRIVED[:] = saved
+        if r.ok:
+            sig += ":worker-thread-only"
     return FAIL(sig, detail, nontrivial=n >= 1, classes=cls)
 
 
@@ -785,6 +819,8 @@ def _product(tier):
                         c = {"src": src, "ew": ew, "wrap": wrap, "term": term, "cfg": cfg}
                         if (idx + idx // 4 + idx // 28) % 4 == 0:
                             c["resub"] = 2
+                        if (idx + idx // 3 + idx // 21) % 4 == 1:
+                            c["thread"] = "worker"
                         yield c
                     idx += 1
 
@@ -815,6 +851,8 @@ def _stacked(tier):
                         c = {"src": src, "ew": EW_SAMPLES[idx % len(EW_SAMPLES)], "wrap": w1, "wrap2": w2, "term": term, "cfg": cfg}
                         if idx % 5 == 0:
                             c["resub"] = 1
+                        if idx % 4 == 2:
+                            c["thread"] = "worker"
                         yield c
                         idx += 1
 
@@ -878,6 +916,7 @@ def _deep(draw):
         "term": draw(_term_s()),
         "cfg": draw(st.sampled_from(weighted)),
         "resub": draw(st.sampled_from([0, 0, 0, 0, 0, 0, 1, 2])),
+        "thread": draw(st.sampled_from(["main", "main", "worker"])),
     }
 
 
